@@ -131,6 +131,48 @@ def run(rep, tier):
             ok = isinstance(spec, dict) and spec.get("default-features") is False
             rep.ob(rd, name, ok, "dependency %s is compiled under no_std" % name, expected="default-features = false", found=spec)
         rep.ob(rd, "default", feats.get("default") == ["std"], "default feature set", expected=["std"], found=feats.get("default"))
+    # R20.e: the no_std JIT takes caller-supplied executable memory: it may refuse it only for being too small
+    # for the (page-rounded) code or not page-aligned; anything else must compile and run as the std build does
+    re_ = rep.rule("R20.e", "no_std JitMemory::new refuses caller-supplied memory exactly when it is shorter than the page-rounded code size or not aligned to PAGE_SIZE", floor=1)
+    import symex
+    import terms as T
+    Fn_ = Ctx(rep, "nostd").F
+    pth = "jit::JitMemory::new"
+    fnn = Fn_.fns.get(pth)
+    oke, founde = False, "missing"
+    if fnn and fnn.get("thir"):
+        page = Fn_.const("jit::PAGE_SIZE")
+        OPQ = ("jit_compile", "resolve_jumps", "round_up_to_page", "JitMemory::counter", "JitCompiler::new")
+        ev = symex.Evaluator(Fn_, opaque_calls=lambda q: q.endswith(OPQ))
+        args = [ev.sym_for("a%d" % k, q["ty"]) for k, q in enumerate(fnn["thir"]["params"])]
+        mems = [a for a, q in zip(args, fnn["thir"]["params"]) if q["ty"].startswith("&mut [u8]") or q["ty"].startswith("&'a mut [u8]")]
+        outs = ev.run_fn(pth, args) or []
+        own = []
+        for v, st in outs:
+            if not (isinstance(v, tuple) and len(v) > 2 and v[0] == "struct" and v[2] == "Err"):
+                continue
+            if "residual" in repr(symex.sfield(v, "0"))[:40]:
+                continue        # an error propagated from the compiler passes
+            own.append([c for c in st.conds if "is_ok" not in repr(c)[:30]])
+        probs = []
+        if len(mems) != 1 or not isinstance(page, int):
+            probs.append("executable-memory parameter / PAGE_SIZE not identified")
+        else:
+            ln = ("call", "len", (mems[0],), 64)
+            ptr = ("call", "as_ptr", (mems[0],), 64)
+            sizes = {c[4] for cs in own for c in cs if c[0] == "cmp" and c[1] == "ult" and c[3] == ln}
+            if len(sizes) != 1 or "round_up_to_page" not in repr(list(sizes)[0]):
+                probs.append("size test: %s" % [T.show(x)[:80] for x in sizes])
+            else:
+                size = sizes.pop()
+                want = [[T.cmp("ult", 64, ln, size)],
+                        [T.cmp("ule", 64, size, ln), T.cmp("ne", 64, T.K(64, 0), T.op("urem", 64, ptr, T.K(64, page)))]]
+                got = sorted(sorted(map(repr, cs)) for cs in own)
+                if got != sorted(sorted(map(repr, cs)) for cs in want):
+                    probs.append("refusals: %s" % [[T.show(c)[:90] for c in cs] for cs in own])
+        oke, founde = not probs, probs or "too small / not page-aligned, nothing else"
+    rep.ob(re_, pth, oke, "conditions under which the no_std JitMemory::new itself returns Err",
+           expected="len < round_up_to_page(code size)  |  ptr % PAGE_SIZE != 0", found=founde)
     rep.trust("rustc front end: cfg expansion and type checking of both configurations", "combine: easy_parse and parse accept the same language")
     rep.assume("properties decided on the std facts carry over through body identity")
 
